@@ -40,6 +40,8 @@ def run(ctx):
   rule_guess_and_table(ctx)
   rule_msb(ctx)
   rule_exhaust(ctx)
+  rule_lehman(ctx)
+  ctx.expect("R-C04-LEHMAN", 3, "convergents, Fermat step, bound")
   ctx.expect("R-C04-FERMAT", 6, "six clauses")
   ctx.expect("R-C04-GUESS", 1, "guess identity")
   ctx.expect("R-C04-TABLE", 3, "table, L, gate")
@@ -370,3 +372,70 @@ def is_success_test(t):
 def is_success_stmt(s):
   txt = norm(s)
   return "AttachFactors" in txt or txt.endswith(".result = True")
+
+
+# ------------------------------------------------------------------ LEHMAN (the Fermat step on 4uvn inside FactorWithGuess)
+def rule_lehman(ctx):
+  """Necessary algebra of Lehman's step: d = 4*u*v*n for the convergent (u, v) of p_0/q_0 with q_0 = n // p_0, a = ceil(sqrt d),
+  square test on a^2 - d, g = gcd(a + b, n).  Then (a+b)(a-b) = 4uvn, so a+b shares a factor with n when p_0 is close to p."""
+  R = "R-C04-LEHMAN"
+  repo = ctx.repo
+  f = repo.func("special_case_factoring", "FactorWithGuess")
+  w = sym.Walker(repo, f)
+  w.run()
+  n, p0 = P("param", "n"), P("param", "p_0")
+  q0 = sym.mk("fdiv", n, p0)
+  loops = [i for i in w.loop_info.values() if isinstance(i["node"], ast.For)]
+  if len(loops) != 1 or not loops[0].get("visits"):
+    ctx.violation(R, f.where, "convergent loop", "expected one loop over the convergents")
+    return
+  info = loops[0]
+  vis = info["visits"][0]
+  cf = sym.mk("call", P("lit", "ntheory_util:ContinuedFraction"), p0, q0)
+  oki = as_poly(vis["iter"]) == cf
+  ctx.record(R, f.where, "convergents of p_0 / (n // p_0)", oki, "ContinuedFraction(p_0, q_0), q_0 = n // p_0" if oki else "convergents are taken of %r" % (vis["iter"],))
+  el = sym.mk("idx", cf, vis["k"])
+  u, v = sym.mk("idx", el, Poly.const(1)), sym.mk("idx", el, Poly.const(2))
+  d = u * v * n * 4
+  rets = [e for e in w.events if e.kind == "return" and e.node is not None and isinstance(e.data["value"], Seq) and e.data["value"].items]
+  probs = []
+  if not rets:
+    probs.append("no factor-producing return")
+  for e in rets:
+    env = e.state.env
+    dd, a, b, g = [as_poly(env.get(x)) if env.get(x) is not None else None for x in ("d", "a", "b", "g")]
+    if dd is None or not (dd - d).is_zero():
+      probs.append("d is %r, expected 4*u*v*n with (u, v) the convergent" % (dd,))
+      continue
+    isq = sym.mk("isqrt", d)
+    if a is None or not ((a - isq).is_zero() or (a - isq - 1).is_zero()):
+      probs.append("a is not isqrt(d) rounded up")
+    elif (a - isq).is_zero():
+      # the path that does not increment must know a*a >= d
+      if not any(f_[0] == "cmp" and ((f_[1] in ("GtE", "Eq") and (as_poly(f_[2]) - isq * isq).is_zero() and (as_poly(f_[3]) - d).is_zero()) or
+                                     (f_[1] in ("LtE", "Eq") and (as_poly(f_[3]) - isq * isq).is_zero() and (as_poly(f_[2]) - d).is_zero())) for f_ in e.facts):
+        probs.append("a = isqrt(d) is used without a*a >= d")
+    if a is not None and not any(f_[0] == "square" and (as_poly(f_[1]) - (a * a - d)).is_zero() for f_ in e.facts):
+      probs.append("no square test on a^2 - d")
+    if a is not None and (b is None or b != sym.mk("isqrt", a * a - d)):
+      probs.append("b is not isqrt(a^2 - d)")
+    if a is not None and b is not None and (g is None or g != sym.mk("gcd", a + b, n)):
+      probs.append("g is not gcd(a + b, n)")
+    # admissibility test |u*q_0 - v*p_0| < bound dominates
+    if not any(f_[0] == "cmp" and f_[1] == "Lt" and as_poly(f_[2]) == sym.mk("abs", u * q0 - v * p0) for f_ in e.facts):
+      probs.append("admissibility test |u*q_0 - v*p_0| < bound missing")
+  ctx.record(R, f.where, "Fermat step on d = 4uvn: a = ceil(sqrt d), a^2 - d square, g = gcd(a + b, n)", not probs, "; ".join(sorted(set(probs))) or
+             "(a + b)(a - b) = 4uvn: a + b shares a factor with n for a good convergent")
+  # bound ~ n^(1/3)
+  b_e = [e for e in w.events if e.kind == "assign" and e.data["name"] == "bound"]
+  okb = False
+  for e in b_e:
+    v_ = as_poly(e.data["value"]).as_atom()
+    if v_ is not None and v_.kind == "shl":
+      inner = v_.args[0].as_atom()
+      sh = v_.args[1]
+      if inner is not None and inner.kind == "pow" and inner.args[1] == sym.mk("tdiv", Poly.const(1), Poly.const(3)):
+        base = inner.args[0].as_atom()
+        if base is not None and base.kind == "shr" and base.args[0] == n and (base.args[1] - sh * 3).is_zero():
+          okb = True
+  ctx.record(R, f.where, "bound = (n >> 3s)^(1/3) << s  (about n^(1/3))", okb, "cube root taken on the top bits and scaled back by the same shift" if okb else "bound is not the scaled cube root of n")
